@@ -34,10 +34,11 @@ CLAIMS = {
          "over a mixed 8-key alphabet x 18 query keys x 5 forms (also evaluated as an agreement law on the implementation's own answers), "
          "all short lists x all indices, byte-offset string indexing and random additive-law cases."),
  "C01": ("PARTIAL. A Gallina lexer (maximal munch over the token rules of CEL.g4), literal decoders and a fuelled recursive-descent parser "
-         "with the visitor's checks and macro expansion form compile : source -> program | reject | out-of-fuel. Proved: compile is total with "
-         "these outcomes; pos_for (positions of macro errors) exists for every offset in the source and never points beyond it; characters no "
-         "token rule starts with, and unterminated one-quote literals, do not lex. Not proved: soundness w.r.t. a derivation relation and fuel "
-         "sufficiency. The tie to the real ANTLR parser is the correspondence run: accept/reject AND the resulting tree are compared on all "
+         "with the visitor's checks and macro expansion form compile : source -> program | reject | out-of-fuel. Proved: the parser's fuel 16*(tokens+2) suffices on EVERY token list "
+         "(C01_fuel_sufficient: one induction on the fuel over all 20 parser functions with a rank per function, giving also that every successful "
+         "sub-parse strictly consumes input), hence compile is total with exactly two outcomes, program or rejection (C01_total); pos_for (positions of macro errors) exists for every offset in the source and never points beyond it; characters no "
+         "token rule starts with, and unterminated one-quote literals, do not lex. Not proved: soundness w.r.t. a derivation relation. "
+         "The tie to the real ANTLR parser is the correspondence run: accept/reject AND the resulting tree are compared on all "
          "token strings up to length 4 over a 16-token alphabet (and 5 more alphabets up to length 3), random characters/tokens, generated "
          "valid programs and their mutations; panics, empty error lists, empty error texts and out-of-source positions are failing inputs."),
  "C04": ("Theorem C04_roundtrip (induction on the tree with continuation lemmas for the left-associative loops and an 'eventually, for all sufficient fuel' "
